@@ -108,6 +108,10 @@ inductive Offence (ops : Ops DT Val) (c : ClassDesc DT Val) (cfg : Cfg Val) : Pr
   /-- mandatory property missing -/
   | mandatory (d : ModPropDesc Val) : d ∈ c.modProps → d.mandatory = true → d.classValue = none →
       lookup d.name cfg = none → Offence ops c cfg
+  /-- a command configured with an unknown property, or with a property value of the wrong type -/
+  | cmdProp (n : Name) (items : List (Name × Val)) (k : Name) (v : Val) : n ∈ c.otherNames →
+      lookup n cfg = some (.acc items) → (k, v) ∈ items →
+      (match ops.cmdProp k with | some f => (f v).isNone | none => true) = true → Offence ops c cfg
   /-- something wrong in the cfg of a parameter (own datatype, or derived limit) -/
   | param (pd : ParamDesc DT Val) (dt0 : DT) (dflt : Option Val) (items : List (Name × Val)) : pd ∈ c.params →
       startOf ops c cfg pd = some (dt0, dflt) →
@@ -331,6 +335,12 @@ def offendingB (ops : Ops DT Val) (c : ClassDesc DT Val) (cfg : Cfg Val) : Bool 
         (match lookup "value" items with | some v => (d.validate v).isNone | none => false)
     | none => d.mandatory && d.classValue.isNone
     | _ => false) ||
+  (c.otherNames.any fun n =>
+    match lookup n cfg with
+    | some (.acc items) => items.any fun kv => match ops.cmdProp kv.1 with
+      | some f => (f kv.2).isNone
+      | none => true
+    | _ => false) ||
   (c.params.any fun pd =>
     match startOf ops c cfg pd with
     | some (dt0, dflt) =>
@@ -352,6 +362,7 @@ def outsideB (c : ClassDesc DT Val) (cfg : Cfg Val) : Bool :=
     | some (.prop (.dict none)) => true
     | some (.acc items) => (lookup "value" items).isNone
     | _ => false) ||
+  (c.otherNames.any fun n => match lookup n cfg with | some (.prop _) => true | _ => false) ||
   (c.params.any fun pd => (match lookup pd.name cfg with | some (.prop _) => true | _ => false) ||
     (pd.dt.isNone && (pd.limit.isNone || !(c.params.any fun b => b.name == pd.base && b.dt.isSome))))
 
